@@ -90,8 +90,12 @@ HoldsCrop(cl, c, r) ==
                                /\ \A t \in 1..L : r.data[t] = Val(c, SetMin(S) + t - 1)
       [] OTHER -> TRUE
 
+\* extend_dim with start (stop) omitted: c.sn (c.en).  The requested interval then ends at the current axis end, that
+\* coordinate included whatever the closedness flag says: nothing may be added on that side.  (c.ms = 0 / c.me = last then.)
+ELc(c) == c.lc \/ ("sn" \in DOMAIN c /\ c.sn)
+ERc(c) == c.rc \/ ("en" \in DOMAIN c /\ c.en)
 \* candidate extents that explain the observed number of samples
-ExtW(c, r) == {w \in Extents(c.s, c.ms, c.me, c.lc, c.rc) : Len(r.data) = w[2] - w[1] + 1}
+ExtW(c, r) == {w \in Extents(c.s, c.ms, c.me, ELc(c), ERc(c)) : Len(r.data) = w[2] - w[1] + 1}
 LatIdx(w, t) == w[1] + t - 1                                     \* lattice index of output sample t
 Placed(c, r, w) == \A j \in 0..(c.n - 1) : LET t == j - w[1] + 1 IN t \in 1..Len(r.data) /\ r.data[t] = Datum(c, j)
 HoldsExtend(cl, c, r) ==
@@ -107,8 +111,8 @@ HoldsExtend(cl, c, r) ==
       \* must lie strictly inside the requested interval as a double (startb/stopb are the doubles that were passed).
       [] cl = "ExtendOpenEndExcluded" ->
               LET Wp == {w \in W : Placed(c, r, w)} IN
-              Wp = {} \/ \E w \in Wp : /\ (w[1] # ExtLo(c.ms, c.lc) => BLt(r.startb, r.cout[1]))
-                                       /\ (w[2] # ExtHi(c.me, c.rc) => BLt(r.cout[L], r.stopb))
+              Wp = {} \/ \E w \in Wp : /\ (w[1] # ExtLo(c.ms, ELc(c)) => BLt(r.startb, r.cout[1]))
+                                       /\ (w[2] # ExtHi(c.me, ERc(c)) => BLt(r.cout[L], r.stopb))
       [] OTHER -> TRUE
 
 HoldsWidth(cl, c, r) ==
